@@ -9,7 +9,7 @@ def _ev(results, tier):
 
 CHECK = {
     'level': 'exploration',
-    'rule': ('[bounded unfairness] 14 scenarios x every schedule point f of a thread A: A is frozen after its f-th point (also inside the spin-flag critical section and inside a clear callback) while B -- optionally then C -- runs alone for up to 100 (repeated with 300) consecutive failed flag attempts or steps; then the exploration continues (capped DFS + random walks); plus freezes injected into the sampled 3-4 thread schedules; same oracles; '
+    'rule': ('[one CPU] the environment queries (sched_getaffinity, sysconf, get_nprocs) are interposed: the 351 both-threads-lock pairs and a sample of one-sided lock pairs are DFS-explored with the process confined to ONE cpu (which still preempts); [bounded unfairness] 14 scenarios x every schedule point f of a thread A: A is frozen after its f-th point (also inside the spin-flag critical section and inside a clear callback) while B -- optionally then C -- runs alone for up to 100 (repeated with 300) consecutive failed flag attempts or steps; then the exploration continues (capped DFS + random walks); plus freezes injected into the sampled 3-4 thread schedules; same oracles; '
              'A (controlled scheduler, fibres, ASan): the unmodified memory.c compiled against shadow <stdatomic.h>/<sched.h> '
              'yields to the scheduler before every atomic step, at frees of the managed/bookkeeping block and at clear-callback '
              'entry; DFS (stateless re-execution, every choice at every schedule point) over ALL interleavings of every '
